@@ -1,7 +1,8 @@
 #!/bin/bash
 # usage: tools/compile_compat/run.sh [repo-dir]
-# A corpus of 764 small client programs (six pointee types x four cv-qualifications x 32 API operations on a tainted pointer,
-# noop backend).  compiled_on_pinned_tree.txt lists those that compiled with the headers of the pinned snapshot (95f9911).
+# A corpus of 1318 small client programs on the noop backend: gen.py -- six pointee types x four cv-qualifications x 32 API
+# operations on a tainted pointer; gen2.py -- 19 value types x 28 operations on tainted values, cells and arrays, plus 22
+# programs over registered structs, callbacks, app pointers, strings, hints, enums.  compiled_on_pinned_tree.txt lists those that compiled with the headers of the pinned snapshot (95f9911).
 # Every one of them has to compile with today's headers too: a repair must not make a program of the pinned tree stop
 # compiling.  Prints the programs that were lost; exit 1 if there are any.  (Not a registered check: no property is decided
 # here -- a guard for the repairs, run before each merge into /repo.)
@@ -9,7 +10,7 @@ HERE=$(dirname "$(realpath "$0")")
 REPO=${1:-/repo}
 D=$(mktemp -d /tmp/compile_compat.XXXXXX)
 trap 'rm -rf "$D"' EXIT
-cd "$D" && python3 "$HERE/gen.py" >/dev/null
+cd "$D" && python3 "$HERE/gen.py" >/dev/null && python3 "$HERE/gen2.py" >/dev/null
 out=$(xargs -a "$HERE/compiled_on_pinned_tree.txt" -P 16 -I{} sh -c "g++ -std=c++17 -fsyntax-only -w -I'$REPO/code/include' {} >/dev/null 2>&1 || echo 'LOST {}'")
 n=$(wc -l < "$HERE/compiled_on_pinned_tree.txt")
 if [ -n "$out" ]; then echo "$out"; echo "programs of the pinned tree that no longer compile with $REPO: $(echo "$out" | wc -l) of $n"; exit 1; fi
